@@ -156,4 +156,78 @@ def byPosition (obs : List (Nat × Obst)) (ctr : Nat → Option (Rat × Rat)) (i
   posPass obs ctr ix iy roles t .dynamic ++ posPass obs ctr ix iy roles t .phantom ++
     posPass obs ctr ix iy roles t .static ++ posPass obs ctr ix iy roles t .environment
 
+/-- `Scenario.occupancies_at_time_step` / `obstacle_states_at_time_step` with their `is_natural_number(time_step)` assertion
+    (scenario/scenario.py:1067-1072, 1205-1208): a negative time step is rejected, nothing is computed. -/
+def occupanciesAtChk (obs : List (Nat × Obst)) (t : Int) (role : Option Role) : Res (List (Nat × Occ)) :=
+  if t < 0 then .error .assert else .ok (occupanciesAt obs t role)
+
+def statesAtChk (obs : List (Nat × Obst)) (t : Int) : Res (List (Nat × StRef)) :=
+  if t < 0 then .error .assert else .ok (statesAt obs t)
+
+/-! ### histories of ONE obstacle: the public mutators that can change its answers
+  (scenario/obstacle.py:242-257 `initial_state` setter, 563-570 / 774-780 `prediction` setters, 668-728
+  `update_initial_state` / `update_prediction`; prediction/prediction.py:185-197 `occupancy_set` setter, 306-329 `shape` /
+  `trajectory` setters).  A replaced trajectory / occupancy list / prediction is `setPrediction` with the new content;
+  everything else the public interface offers (optional attributes, the "immutable" setters that only warn, re-assigning
+  the object a getter returned, a failed `update_initial_state`, read-only queries) is `keep`. -/
+inductive Mut where
+  | setInitial (t : Int)                    -- `o.initial_state = InitialState(time_step = t, …)` (static, dynamic)
+  | setPrediction (p : Pred)                -- `o.prediction = p`, `o.update_prediction(p, …)`, setters of the held prediction
+  | setPhantom (p : Option (List TS))       -- `phantom.prediction = p`, `phantom.prediction.occupancy_set = …`
+  | updateInitial (t : Int)                 -- `o.update_initial_state(state of step t, …)`: prediction invalidated
+  | keep
+  deriving Repr
+
+def Obst.apply : Obst → Mut → Obst
+  | .static _, .setInitial t => .static t
+  | .dynamic _ p, .setInitial t => .dynamic t p
+  | .dynamic t _, .setPrediction p => .dynamic t p
+  | .dynamic _ _, .updateInitial t => .dynamic t .none
+  | .phantom _, .setPhantom p => .phantom p
+  | o, _ => o
+
+def Obst.run (o : Obst) (ms : List Mut) : Obst := ms.foldl Obst.apply o
+
+/-! ### histories of a SCENARIO's obstacle population (scenario/scenario.py:687-766 `add_objects`, 849-895 `remove_obstacle`,
+  665-676 `obstacles`, 1356-1367 `_mark_object_id_as_used`): four insertion-ordered dictionaries, one id pool. -/
+structure Scn where
+  st : List (Nat × Obst) := []
+  dy : List (Nat × Obst) := []
+  ph : List (Nat × Obst) := []
+  en : List (Nat × Obst) := []
+  used : List Nat := []          -- ids held by other scenario objects (lanelets, signs, …)
+  deriving Repr
+
+/-- `Scenario.obstacles`: static, dynamic, phantom, environment — each in insertion order. -/
+def Scn.obstacles (s : Scn) : List (Nat × Obst) := s.st ++ s.dy ++ s.ph ++ s.en
+
+def Scn.idUsed (s : Scn) (i : Nat) : Bool := s.used.contains i || s.obstacles.any (fun x => x.1 == i)
+
+/-- `add_objects(obstacle)`: ValueError when the id is taken (nothing changes), else appended to the dictionary of its role. -/
+def Scn.add (s : Scn) (i : Nat) (o : Obst) : Res Scn :=
+  if s.idUsed i then .error .value else
+    .ok (match o.role with
+      | .static => { s with st := s.st ++ [(i, o)] }
+      | .dynamic => { s with dy := s.dy ++ [(i, o)] }
+      | .phantom => { s with ph := s.ph ++ [(i, o)] }
+      | .environment => { s with en := s.en ++ [(i, o)] })
+
+/-- `add_objects([o₁, o₂, …])`: element by element; the first failing element raises, the earlier ones stay added. -/
+def Scn.addMany : Scn → List (Nat × Obst) → Scn × Bool
+  | s, [] => (s, true)
+  | s, (i, o) :: r =>
+    match s.add i o with
+    | .ok s' => Scn.addMany s' r
+    | .error _ => (s, false)
+
+/-- `remove_obstacle(x)`: the entry with `x.obstacle_id` leaves its dictionary and the id pool; an absent id only warns. -/
+def Scn.remove (s : Scn) (i : Nat) : Scn :=
+  { s with st := s.st.filter (fun x => x.1 != i), dy := s.dy.filter (fun x => x.1 != i),
+           ph := s.ph.filter (fun x => x.1 != i), en := s.en.filter (fun x => x.1 != i) }
+
+/-- a mutator applied to the obstacle with id `i` while it is part of the scenario (the scenario holds the object itself) -/
+def Scn.mutate (s : Scn) (i : Nat) (m : Mut) : Scn :=
+  let f := fun (x : Nat × Obst) => if x.1 == i then (x.1, x.2.apply m) else x
+  { s with st := s.st.map f, dy := s.dy.map f, ph := s.ph.map f, en := s.en.map f }
+
 end CR.Occ
